@@ -199,6 +199,19 @@ def run_edge(case):
         for vv in (None, 1e6, 0.5):
             sizes = [n] * W
             one_transition(res, case, sizes, [0.0] * W, [0.0] * W, [float(v) for v in ell], n, ratio, vv, d=1)
+    # a pool whose last iteration stopped just short of beta=1 (inside the last BETA_TOLERANCE cell) and must continue
+    for gap in (1e-6, 6.103515625e-05, 9e-5, 1.1e-4, 1e-3):
+        bp = 1.0 - gap
+        for scale in (0.05, 1.0):
+            ellw = (ell0 * scale)[perm]
+            sizes = [n] * (W + 1)
+            betas_h = [0.0] * W + [bp]
+            lv = [float(v) for v in ellw] + [float(v) for v in (ell0 * scale)[:n]]
+            # consistent evidence values for the history (reference model), so that the state is a reachable-looking one
+            from mc.refmodels import mis as _mis
+            lz_last = _mis.logw_float([np.array(lv[:N])], [0.0], [0.0], bp)[1]
+            for vv in (None, 0.5):
+                one_transition(res, case, sizes, betas_h, [0.0] * W + [float(lz_last)], lv, n, ratio, vv, d=1)
     res.states += len(case["deltas"])
     res.sample({"n": n, "warmup_batches": W, "ess_ratio": ratio, "crossing_at": [1 - d for d in case["deltas"]]}, cap=1)
     return res
